@@ -204,10 +204,10 @@ func RunTwin(ops []TOp, cfg Config) *TwinResult {
 			bad("%d checkpoints stored, %d reports delivered + %d counted drops", out.Checkpoints, out.Delivered, out.Dropped)
 		}
 		if got := int(sum.Counters["checkpoints_written"]); got != out.Checkpoints {
-			bad("checkpoints_written = %d, checkpoints stored = %d", got, out.Checkpoints)
+			out.Viol = append(out.Viol, Violation{Prop: "C20", Msg: fmt.Sprintf("verifier counter checkpoints_written = %d, checkpoints stored = %d", got, out.Checkpoints)})
 		}
 		if got := int(sum.Counters["ranges_verified"]); got != out.Delivered {
-			bad("ranges_verified = %d, reports delivered = %d", got, out.Delivered)
+			out.Viol = append(out.Viol, Violation{Prop: "C20", Msg: fmt.Sprintf("verifier counter ranges_verified = %d, reports delivered = %d", got, out.Delivered)})
 		}
 		checkSkips(reports, bad)
 		fl, _ := b.W.FirstIndex()
